@@ -117,15 +117,16 @@ type Cmd struct {
 	C     int    `json:"c"`
 	T     string `json:"t,omitempty"`
 
-	Key       Item     `json:"key,omitempty"`
-	KeyExtra  Item     `json:"key_extra,omitempty"` // attributes added to the Key map of the request beyond the key schema
-	Item      Item     `json:"item,omitempty"`
-	Upd       Update   `json:"upd,omitempty"`
-	Cond      *Expr    `json:"cond,omitempty"`
-	RetOnFail bool     `json:"ret_on_fail,omitempty"`
-	RetVal    string   `json:"ret_val,omitempty"` // ReturnValues other than the default of the harness (the returned attributes are then not compared)
-	NeedN     []string `json:"need_n,omitempty"`  // the condition compares these attributes with each other: executed only while the target item holds numbers under all of them
-	Proj      []string `json:"proj,omitempty"`    // ProjectionExpression of a paginated walk
+	Key       Item              `json:"key,omitempty"`
+	KeyExtra  Item              `json:"key_extra,omitempty"` // attributes added to the Key map of the request beyond the key schema
+	Item      Item              `json:"item,omitempty"`
+	Upd       Update            `json:"upd,omitempty"`
+	Cond      *Expr             `json:"cond,omitempty"`
+	RetOnFail bool              `json:"ret_on_fail,omitempty"`
+	RetVal    string            `json:"ret_val,omitempty"`  // ReturnValues other than the default of the harness (the returned attributes are then not compared)
+	NeedN     []string          `json:"need_n,omitempty"`   // the condition compares these attributes with each other: executed only while the target item holds numbers under all of them
+	NeedHas   map[string]string `json:"need_has,omitempty"` // executed only while the target item holds these attributes with these types ("L:S" = a list whose first element is a string)
+	Proj      []string          `json:"proj,omitempty"`     // ProjectionExpression of a paginated walk
 
 	Index    string `json:"index,omitempty"`
 	HashAttr string `json:"hash_attr,omitempty"` // Query: partition attribute of the addressed table/index
